@@ -89,3 +89,39 @@ Module DBC.
   Definition check_sx (s : sx) : bool :=
     match decode s with Some c => check c | None => false end.
 End DBC.
+
+(* ---------------- C07: WAL programs (uncompressed logs): files with sizes, replay output *)
+From GoSST Require Import RecordIO.Format RecordIO.Writer Wal.Wal Corr.C04.
+Module C07.
+  Record case := mkCase { c_max : N; c_ops : list wop; c_files : list (N * N); c_recs : list bytes }.
+
+  Definition dOp (s : sx) : option wop :=
+    match s with
+    | L [I 0; B r] => Some (WAppend r)
+    | L [I 1] => Some WRotate
+    | _ => None
+    end.
+
+  Definition decode (s : sx) : option case :=
+    match s with
+    | L [I m; ops; files; recs] =>
+        do ops' <- dList dOp ops; do files' <- dList (dPair dN dN) files; do recs' <- dList dB recs;
+        Some (mkCase m ops' files' recs')
+    | _ => None
+    end.
+
+  Definition idc : codec := C04.codec_of 0 [].
+
+  Definition check (c : case) : bool :=
+    let a := fold_left (app_step idc (c_max c)) (c_ops c) (app_new idc) in
+    let files := app_files a in
+    negb (a_failed a)
+    && list_eqb (fun x y => N.eqb (fst x) (fst y) && N.eqb (snd x) (snd y)) (map (fun f => (fst f, lenN (snd f))) files) (c_files c)
+    && match replay idc files with
+       | (rs, None) => list_eqb bytes_eqb rs (c_recs c)
+       | (_, Some _) => false
+       end.
+
+  Definition check_sx (s : sx) : bool :=
+    match decode s with Some c => check c | None => false end.
+End C07.
